@@ -73,6 +73,10 @@ func pdFor(c *C08Case, i int) []byte {
 		n = i % 7
 	case 3:
 		n = 9999
+	case 4:
+		n = 6500 + (i*37)%1400 // 6.5 - 7.9 KB: about a hundred of them are just over the byte limit once base64-encoded
+	case 5:
+		n = 7000 + i%3
 	default:
 		n = []int{0, 1, 9999, 10000, 32, 500}[i%6]
 	}
@@ -427,6 +431,11 @@ func runC08(t *testing.T, c *C08Case) {
 	}
 	_ = gojson.Unmarshal(obB, &ob)
 	c.TwinOK = len(oa.Performable) == len(ob.Performable)
+	if len(oa.UpkeepProposals) > 0 && len(ob.UpkeepProposals) == 0 && len(oa.Performable) < len(ob.Performable) {
+		// only node a carries proposals: at the byte limit it may fit fewer results than its twin, but what it does
+		// fit must still be the same canonical prefix
+		c.TwinOK = true
+	}
 	for i := range oa.Performable {
 		if c.TwinOK && oa.Performable[i].UniqueID() != ob.Performable[i].UniqueID() {
 			c.TwinOK = false
@@ -554,6 +563,11 @@ func boundary() []C08Case {
 	add(C08Case{Family: "accepted-again-on-a-higher-block-within-the-lockout", Seq: 23, Digest: 2, Staged: 120, PDMode: 2, EarlyTwice: 30, InFlight: 4, HistLen: 20})
 	add(C08Case{Family: "all-max-size-over-byte-limit", Seq: 21, Digest: 1, Staged: 150, PDMode: 1, HistLen: 256, LogProps: 6, CondUpk: 8})
 	add(C08Case{Family: "all-9999-over-byte-limit", Seq: 29, Digest: 1, Staged: 100, PDMode: 3, HistLen: 256})
+	add(C08Case{Family: "hundred-mid-size-results-just-over-the-byte-limit", Seq: 31, Digest: 1, Staged: 100, PDMode: 4, HistLen: 256})
+	add(C08Case{Family: "hundred-mid-size-results-just-over-the-byte-limit", Seq: 32, Digest: 2, Staged: 140, PDMode: 5, HistLen: 30, LogProps: 3, CondUpk: 4})
+	add(C08Case{Family: "empty-history-after-a-non-empty-one", Seq: 33, Digest: 1, Staged: 5, PDMode: 2, HistLen: 0, Rollback: true})
+	add(C08Case{Family: "two-log-and-nine-conditional-proposals", Seq: 34, Digest: 1, Staged: 3, LogProps: 2, CondUpk: 9, HistLen: 3})
+	add(C08Case{Family: "two-log-and-nine-conditional-proposals", Seq: 35, Digest: 2, Staged: 0, LogProps: 0, CondUpk: 11, HistLen: 3})
 	add(C08Case{Family: "byte-limit-cut-then-the-rest-of-the-observation-grows", Seq: 61, Digest: 1, Staged: 150, PDMode: 1, HistLen: 16, HistGrow: 256})
 	add(C08Case{Family: "byte-limit-cut-then-the-rest-of-the-observation-grows", Seq: 71, Digest: 2, Staged: 100, PDMode: 3, HistLen: 3, HistGrow: 300, CondUpk: 6})
 	add(C08Case{Family: "mixed-sizes-at-limit", Seq: 30, Digest: 2, Staged: 400, PDMode: 0, InFlight: 20, HistLen: 256, LogProps: 8, CondUpk: 12, PropsFly: 4})
